@@ -92,17 +92,22 @@ class Session:
         return lines
 
     # ------------------------------------------------------------ http
-    def post(self, body, timeout=5.0, headers=None):
+    def post(self, body, timeout=30.0, headers=None, final=False):
+        """POST an action list.  final=True: the actions may end fzf before it answers (status 0 then)."""
         c = http.client.HTTPConnection("127.0.0.1", self.port, timeout=timeout)
         try:
             c.request("POST", "/", body=body.encode(), headers=headers or {})
             r = c.getresponse()
             data = r.read()
             return r.status, data
+        except (http.client.HTTPException, OSError):
+            if final:
+                return 0, b""
+            raise
         finally:
             c.close()
 
-    def get(self, limit=100000, timeout=5.0):
+    def get(self, limit=100000, timeout=30.0):
         c = http.client.HTTPConnection("127.0.0.1", self.port, timeout=timeout)
         try:
             c.request("GET", "/?limit=%d" % limit)
